@@ -47,11 +47,15 @@ func c02Gen(r *rand.Rand, tier string) []spec.Case {
 	var out []spec.Case
 	// wide: version numbers with different digit counts (a comparison of their decimal strings orders them
 	// differently from their values)
-	wideOf := []int{2, 9, 10, 11, 100}
+	wideOfDefault := []int{2, 9, 10, 11, 100}
 	add := func(kind string, h, p []int, hl, pl string, env string) {
 		proto := map[string]string{}
 		mode := r.Intn(3) // all netrpc | all grpc | mixed by version
-		if strings.HasPrefix(kind, "wide") {
+		wideOf := wideOfDefault
+		if strings.HasPrefix(kind, "neg") {
+			wideOf = []int{-3, -2, -1, 0, 2}
+		}
+		if strings.HasPrefix(kind, "wide") || strings.HasPrefix(kind, "neg") {
 			mp := func(in []int) (out []int) {
 				for _, v := range in {
 					out = append(out, wideOf[v])
@@ -209,6 +213,7 @@ func c02Gen(r *rand.Rand, tier string) []spec.Case {
 		for hm := 1; hm < 32; hm++ {
 			for pm := 1; pm < 32; pm++ {
 				add("wide-pair", subsetOf(hm), subsetOf(pm), pick(r, layouts), pick(r, layouts), "")
+				add("neg-pair", subsetOf(hm), subsetOf(pm), "versioned", "versioned", "")
 			}
 		}
 		return out
@@ -249,6 +254,14 @@ func c02Gen(r *rand.Rand, tier string) []spec.Case {
 		}
 		add("wide-pair", subsetOf(hm), subsetOf(pm), pick(r, layouts), pick(r, layouts), "")
 	}
+	// version numbers below zero (VersionedPlugins is keyed by int; the legacy field cannot express them)
+	for i := 0; i < 30; i++ {
+		hm, pm := 1+r.Intn(31), 1+r.Intn(31)
+		for tries := 0; tries < 20 && len(subsetOf(hm&pm)) < 2 && i%4 != 3; tries++ {
+			hm, pm = 1+r.Intn(31), 1+r.Intn(31)
+		}
+		add("neg-pair", subsetOf(hm), subsetOf(pm), "versioned", "versioned", "")
+	}
 	return out
 }
 
@@ -256,7 +269,7 @@ func intersectMax(a, b []int) (int, bool) {
 	best, ok := -1, false
 	for _, x := range a {
 		for _, y := range b {
-			if x == y && x > best {
+			if x == y && (!ok || x > best) {
 				best, ok = x, true
 			}
 		}
@@ -297,6 +310,10 @@ func c02Judge(c spec.Case, evs []spec.Event, d *Death) CaseResult {
 		}
 	}
 	res.Class = fmt.Sprintf("|H|=%d |P|=%d |I|=%d host=%s plugin=%s raw=%v zero=%v", len(H), len(P), nI, lay(p.Host), lay(p.Plugin), p.EnvRaw != "", contains0(H) || contains0(P))
+	if c.Kind == "neg-pair" {
+		res.Class += " negative(-3,-2,-1,0,2)"
+		res.Counters["pairs_with_negative_versions"]++
+	}
 	if c.Kind == "wide-pair" {
 		res.Class += " wide(2,9,10,11,100)"
 		res.Counters["pairs_with_mixed_digit_counts"]++
